@@ -6,7 +6,7 @@ TEXT = {
   "technique": "translation validation of the real binary's output against the Lean model's rendering + Lean wiring theorems + falsifier on the real binary",
  },
  "C18": {
-  "text": "Bit-level theorems over all 2^64 binary64 patterns: the exact magnitude is strictly increasing in the magnitude bits, so the sign-magnitude key orders exact values; the shared range check accepts exactly the finite patterns whose exact value lies in [lo,hi] (both bounds included, lo/hi the documented numbers: boundBits_values proves their exact values), rejects every NaN and both infinities, and stores the pattern unchanged; all six types route JSON through try_from (attribute re-read from the source) so the JSON number route equals the number route. The comparison order, the twelve bound patterns and a correctly rounded decimal->binary64 model (text and JSON grammars) are compared with Rust (<=, <, ==, str::parse, serde_json) on large streams; the falsifier checks the three routes and composite documents.",
+  "text": "Bit-level theorems over all 2^64 binary64 patterns: the exact magnitude is strictly increasing in the magnitude bits, so the sign-magnitude key orders exact values; the shared range check accepts exactly the finite patterns whose exact value lies in [lo,hi] (both bounds included, lo/hi the documented numbers: boundBits_values proves their exact values), rejects every NaN and both infinities, and stores the pattern unchanged; all six types route JSON through try_from (attribute re-read from the source) so the JSON number route equals the number route. The JSON number grammar is PROVED to be contained in the text grammar with the same reading (json_grammar_in_text_grammar), hence on every JSON number the JSON and text routes agree, and whatever the JSON route accepts the text route accepts with the same pattern, for every string. The comparison order, the twelve bound patterns and a correctly rounded decimal->binary64 model (text and JSON grammars) are compared with Rust (<=, <, ==, str::parse, serde_json) on large streams; the falsifier checks the three routes and composite documents.",
   "design_ref": "DESIGN.md §7 C18",
   "note": "The decimal parsers (Rust dec2flt, serde_json) are modelled, not verified; 'malformed text is an error, not a panic' is explored (catch_unwind), the grammar model is validated by correspondence. Route theorems: textRoute_in_range, textRoute_eq_number_route, jsonRoute_eq_textRoute; the text stream includes 16 families of non-literal notations (h:mm, 12,5, 45N ...) that must be rejected.",
   "technique": "Lean 4 + Mathlib (order) theorems over bit patterns + translator (ranges, serde attributes) + differential correspondence on bit-pattern and string streams",
